@@ -270,3 +270,7 @@ func kitLevel(tag string, maxOverrides int) (string, map[trustpolicy.ValidationT
 	}
 	return level, ov
 }
+
+type truststoreType = truststore.Type
+
+var errStoreUnloadable = truststore.TrustStoreError{Msg: "store cannot be loaded"}
